@@ -616,7 +616,7 @@ func (e *engine) judge(j job, sp caseSpec, r *vlib.ChildResult) (fu *followUp) {
 			return
 		}
 		w.judgeReturn(st, *res, false)
-		if res.Err != "" && !w.expectErr {
+		if res.Err != "" && !w.expectErr && !w.errOK {
 			rep.Inconclusive("%s: the operation failed without any injected fault: %s", sp.label(), res.Err)
 			return
 		}
@@ -680,7 +680,7 @@ func (e *engine) judge(j job, sp caseSpec, r *vlib.ChildResult) (fu *followUp) {
 		for _, f := range st.Findings {
 			e.violation(sp, inj, hit, f, w, st, nil, r.Dir)
 		}
-		if len(st.Findings) == 0 && !w.expectErr {
+		if len(st.Findings) == 0 && !w.expectErr && !w.errOK {
 			fu = &followUp{w: w, st: st} // second phase: operate on what this kill left behind
 		}
 		if idx < 0 {
